@@ -92,6 +92,16 @@ def perturbations(v):
     if mp == 'spa':
         b('llq>lt', llq=int(v.get('lt', 0)) + 1)
         b('lt>luq', lt=v['luq'] + 1)
+    # the same bounds exceeded by a fraction only (a value that is not a whole number never
+    # satisfies an integer bound, however it is rounded)
+    b('frac:n1<1', n1=0.5)
+    b('frac:pmin>pmax', pmin=v['pmax'] + 0.5)
+    b('frac:pmax>rankable', pmax=n2 + 0.9)
+    if mp != 'sm':
+        b('frac:lq>uq', lq=v['uq'] + 0.5)
+    if mp == 'spa':
+        b('frac:llq>lt', llq=int(v.get('lt', 0)) + 0.5)
+        b('frac:lt>luq', lt=v['luq'] + 0.7)
     return out
 
 
